@@ -1,10 +1,15 @@
 // C17 legs. Case line format: see /verif/ocaml/c17_run.ml.
-//   c17.filter   implementation: REAL server in a fresh child process per case (common.GConfig is a process global),
-//                configuration delivered by initializationOptions / workspace/didChangeConfiguration / luahelper.json
-//   c17.raw      oracle: the everything-enabled run (luahelper.json: nothing ignored, types 22..29 opened) over the
-//                files that are analysed ("<ws> <mask>"); the other files are excluded by their literal names
-//   c17.re       oracle: Go regexp called directly on every (pattern, subject) pair of the case
-//   c17.wsinfo   file list of the built-in workspaces
+//
+//	c17.filter   implementation: REAL server in a fresh child process per case (common.GConfig is a process global),
+//	             configuration delivered by initializationOptions / workspace/didChangeConfiguration / luahelper.json
+//	c17.sites    implementation: REAL server (fresh child per case), configuration delivered like c17.filter; answer
+//	             S=<mask> A=<mask>: per file of the workspace, scanned by the directory walk (the client holds
+//	             diagnostics of it) / accepted by the per-file predicate IsNeedHandle (didOpen+didChange probe)
+//	c17.raw      oracle: the everything-enabled run (luahelper.json: nothing ignored, types 22..29 opened) over the
+//	             files that are analysed ("<ws> <mask>"); the other files are excluded by their literal names
+//	c17.re       oracle: Go regexp called directly on every (pattern, subject) pair of the case (subjects: absolute
+//	             names, relative names, "/"+relative names, relative folders)
+//	c17.wsinfo   file list of the built-in workspaces
 package main
 
 import (
@@ -270,6 +275,78 @@ func c17ChildRun(line string) string {
 	return c17DiagString(s.snapshot())
 }
 
+// c17.sites: the two places where the ignore-for-analysis rules decide, observed through the protocol only.
+//
+//	S = per file: did the start-up walk (or the re-walk after a settings change) scan it?  (the client holds
+//	    diagnostics of the file; the generator keeps every switch on and uses no silencing rule, and every file of the
+//	    test workspaces has a diagnostic of its own)
+//	A = per file: does the per-file predicate (IsNeedHandle) accept it?  didOpen + didChange to a text whose only
+//	    statement is a syntax error on line c17ProbeLine: a refused file gets no diagnostic there
+const c17ProbeLine = 300
+
+func c17SitesChild(line string) string {
+	return c17Answer(c17SitesChildRun(line))
+}
+
+func c17SitesChildRun(line string) string {
+	c := c17ParseCase(line)
+	ws := c17CheckWs(c)
+	if !strings.HasPrefix(c.root, c17TmpRoot) || strings.Contains(c.root, "..") {
+		return "BAD-CASE root"
+	}
+	lock := c17LockRoot(c.root)
+	defer func() {
+		os.RemoveAll(c.root)
+		if lock != nil {
+			lock.Close()
+		}
+	}()
+	if err := c17WriteWorkspace(c.root, ws, nil); err != nil {
+		return "BAD-CASE " + err.Error()
+	}
+	if c.js != nil {
+		if c.js.entry {
+			return "BAD-CASE entry files are outside the modelled fragment"
+		}
+		if err := ioutil.WriteFile(filepath.Join(c.root, "luahelper.json"), c.js.content(), 0644); err != nil {
+			return "BAD-CASE " + err.Error()
+		}
+	}
+	s := c17Start(c.root)
+	if r := s.initialize(c.c0.initOptions()); r != "OK" {
+		if strings.HasPrefix(r, "ERR") {
+			return "INIT-ERROR"
+		}
+		return "INIT-" + r
+	}
+	for _, ch := range c.changes {
+		if r := s.changeConfiguration(ch.settings()); r != "OK" {
+			return "CHANGE-" + r
+		}
+	}
+	scanned := make([]byte, len(c.files))
+	for i, f := range c.files {
+		scanned[i] = '0'
+		if s.hasDiags(f) {
+			scanned[i] = '1'
+		}
+	}
+	accepted := make([]byte, len(c.files))
+	probe := strings.Repeat("\n", c17ProbeLine) + "x = = 1\n"
+	for i, f := range c.files {
+		s.didOpen(f, ws[f])
+		s.didChangeFull(f, probe)
+		if r := s.fence(); r != "OK" {
+			return "PROBE-" + r
+		}
+		accepted[i] = '0'
+		if s.hasDiagAtLine(f, c17ProbeLine) {
+			accepted[i] = '1'
+		}
+	}
+	return "S=" + string(scanned) + " A=" + string(accepted)
+}
+
 func c17RawChild(line string) string {
 	return c17Answer(c17RawChildRun(line))
 }
@@ -402,6 +479,11 @@ func init() {
 		c := c17ParseCase(line)
 		return c17Spawn("c17.child", line, c.root)
 	})
+	register("c17.siteschild", c17SitesChild)
+	register("c17.sites", func(line string) string {
+		c := c17ParseCase(line)
+		return c17Spawn("c17.siteschild", line, c.root)
+	})
 	register("c17.raw", func(line string) string {
 		return c17Spawn("c17.rawchild", line, "")
 	})
@@ -449,6 +531,9 @@ func init() {
 			subs = append(subs, c.root+"/"+f)
 		}
 		subs = append(subs, c.files...)
+		for _, f := range c.files { // the name as IsIgnoreCompleteFile sees it: main dir trimmed off, separator kept
+			subs = append(subs, "/"+f)
+		}
 		seenD := map[string]bool{}
 		for _, f := range c.files {
 			for _, d := range c17Ancestors(f) {
